@@ -1,12 +1,163 @@
-/- Driver ops for the Flow model. Stub until the model lands. -/
+/- Driver ops for the flow interpreter model (PypyrModel/Flow/*). -/
 import Lean.Data.Json
 import PypyrModel.Json
+import PypyrModel.Flow.Runner
 
 namespace Pypyr.OpFlow
 open Lean (Json)
+open Pypyr Pypyr.Flow
 
-/-- Handle one request object (already parsed); `Except.error` = protocol-level reject. -/
-def handle (_op : String) (_j : Json) : Except String Json :=
-  .error "not implemented"
+def optVal (j : Json) (k : String) : Except String (Option Val) :=
+  match j.getObjVal? k with
+  | .ok v => (Val.ofJson v).map some
+  | .error _ => .ok none
+
+def getD (j : Json) (k : String) (d : Val) : Except String Val := do
+  pure ((← optVal j k).getD d)
+
+def optStrField (j : Json) (k : String) : Except String (Option String) :=
+  match j.getObjVal? k with
+  | .ok (.str s) => .ok (some s)
+  | .ok .null => .ok none
+  | .ok _ => .error s!"{k} must be a string"
+  | .error _ => .ok none
+
+def optNat (j : Json) (k : String) : Except String (Option Nat) :=
+  match j.getObjVal? k with
+  | .ok .null => .ok none
+  | .ok v => (jsonNat? v).map some
+  | .error _ => .ok none
+
+def strArr (j : Json) : Except String (List String) := do
+  (← j.getArr?).toList.mapM fun x => x.getStr?
+
+def whileOfJson (j : Json) : Except String WhileCfg := do
+  pure { max := ← optVal j "max", stop := ← optVal j "stop",
+         sleep := ← getD j "sleep" (.int 0), errorOnMax := ← getD j "errorOnMax" (.bool false) }
+
+def retryOfJson (j : Json) : Except String RetryCfg := do
+  pure { max := ← optVal j "max", sleep := ← getD j "sleep" (.int 0), backoff := ← optVal j "backoff",
+         sleepMax := ← optVal j "sleepMax", jrc := ← getD j "jrc" (.int 0),
+         backoffArgs := ← optVal j "backoffArgs", stopOn := ← optVal j "stopOn", retryOn := ← optVal j "retryOn" }
+
+/-- `None`-valued decorator keys behave like absent ones (`step.get(k, default)` returns None,
+    and `None` is falsy / replaced by the default where the code says so). -/
+def stepOfJson (j : Json) : Except String StepDef := do
+  match j with
+  | .str n => pure { name := some n, simple := true }
+  | _ =>
+    let name ← optStrField j "name"
+    let inArgs ← match j.getObjVal? "in" with
+      | .ok .null => pure none
+      | .ok a => do
+          let prs ← (← a.getArr?).toList.mapM fun p => match p with
+            | .arr #[.str k, v] => do pure (k, ← Val.ofJson v)
+            | _ => throw "bad in pair"
+          pure (some prs)
+      | .error _ => pure none
+    let (wcfg, wbad) ← match j.getObjVal? "while" with
+      | .ok w => match w.getObjVal? "bad" with
+        | .ok _ => pure (none, true)
+        | .error _ => do pure (some (← whileOfJson w), false)
+      | .error _ => pure (none, false)
+    let (rcfg, rbad) ← match j.getObjVal? "retry" with
+      | .ok w => match w.getObjVal? "bad" with
+        | .ok _ => pure (none, true)
+        | .error _ => do pure (some (← retryOfJson w), false)
+      | .error _ => pure (none, false)
+    pure { name, simple := false, inArgs,
+           run := ← getD j "run" (.bool true), skip := ← getD j "skip" (.bool false),
+           swallow := ← getD j "swallow" (.bool false), foreach := ← optVal j "foreach",
+           while_ := wcfg, whileBad := wbad, retry := rcfg, retryBad := rbad,
+           onError := ← optVal j "onError", line := ← optNat j "line", col := ← optNat j "col" }
+
+def pipeOfJson (j : Json) : Except String PipeDef := do
+  let name ← (← j.getObjVal? "name").getStr?
+  let parser ← optStrField j "parser"
+  let groups ← (← (← j.getObjVal? "groups").getArr?).toList.mapM fun g => match g with
+    | .arr #[.str gn, .null] => pure (gn, none)
+    | .arr #[.str gn, steps] => do
+        let ss ← (← steps.getArr?).toList.mapM stepOfJson
+        pure (gn, some ss)
+    | _ => throw "bad group"
+  pure { name, parser, groups }
+
+def optValJson (o : Option Val) : Json := match o with | some v => v.toJson | none => Json.mkObj [("missing", Json.num 1)]
+
+def eventToJson (e : Event) : Json :=
+  Json.mkObj [("tag", Json.str e.tag), ("i", optValJson e.i), ("w", optValJson e.w), ("r", optValJson e.r),
+    ("nerr", Json.num (Lean.JsonNumber.fromNat e.nerr)), ("pipe", Json.str e.pipe),
+    ("depth", Json.num (Lean.JsonNumber.fromNat e.depth)),
+    ("keys", Json.arr (e.keys.map fun (k, v) => Json.arr #[Json.str k, optValJson v]).toArray)]
+
+def resToJson : Res → Json
+  | .ok => Json.str "ok"
+  | .err e h => Json.mkObj [("err", Json.mkObj [("id", Json.num (Lean.JsonNumber.fromNat e.id)),
+      ("name", Json.str e.name), ("msg", Json.str e.msg), ("handled", Json.bool h)])]
+  | .stop => Json.str "stop"
+  | .stopPipeline => Json.str "stopPipeline"
+  | .stopGroup => Json.str "stopGroup"
+  | .jump _ => Json.str "jump"
+  | .call _ => Json.str "call"
+  | .outOfFuel => Json.str "outOfFuel"
+
+def numOfJson (j : Json) : Except String Num :=
+  match j with
+  | .arr #[n, k] => do pure ⟨← jsonInt? n, ← jsonNat? k, true⟩
+  | _ => .error "bad num"
+
+def hasOutOfDomain (s : St) (r : Res) : Bool :=
+  match r with
+  | .err e _ => e.name == "OutOfDomain"
+  | _ => (match Ctx.get? s.ctx "runErrors" with
+    | some (.list xs) => xs.any fun x => match x with
+      | .dict kvs => dictGet? kvs (.str "name") == some (.str "OutOfDomain")
+      | _ => false
+    | _ => false)
+
+/-- `pipelinerunner.run(name, args_in, parse_args, dict_in, groups, success_group, failure_group)`. -/
+def handle (op : String) (j : Json) : Except String Json := do
+  match op with
+  | "run" =>
+    let pipes ← (← (← j.getObjVal? "pipes").getArr?).toList.mapM pipeOfJson
+    let run ← j.getObjVal? "run"
+    let name ← (← run.getObjVal? "name").getStr?
+    let argsIn : Option (List String) ← match run.getObjVal? "args_in" with
+      | .ok .null => pure none
+      | .ok a => do pure (some (← strArr a))
+      | .error _ => pure none
+    let dictIn : Option Ctx ← match run.getObjVal? "dict_in" with
+      | .ok .null => pure none
+      | .ok d => do pure (some (← Ctx.ofJson d))
+      | .error _ => pure none
+    let parseArgs : Option Bool := match run.getObjVal? "parse_args" with
+      | .ok (.bool b) => some b
+      | _ => none
+    let groups : Option (List String) ← match run.getObjVal? "groups" with
+      | .ok .null => pure none
+      | .ok a => do pure (some (← strArr a))
+      | .error _ => pure none
+    let success ← optStrField run "success"
+    let failure ← optStrField run "failure"
+    let rnd ← match j.getObjVal? "rnd" with
+      | .ok a => (← a.getArr?).toList.mapM numOfJson
+      | .error _ => pure []
+    let fuel := match j.getObjVal? "fuel" with
+      | .ok f => (jsonNat? f).toOption.getD 2000
+      | .error _ => 2000
+    -- Pipeline._get_parse_input
+    let argsEmpty := match argsIn with | some (_ :: _) => false | _ => true
+    let parseInput := match parseArgs with
+      | some b => b
+      | none => !(argsEmpty && dictIn.isSome)
+    let pi : PipeInst := { name, groups, success, failure, parseInput, contextArgs := argsIn }
+    let s0 : St := { ctx := dictIn.getD [], rnd }
+    let (s1, r) := runRoot fuel ⟨pipes⟩ pi s0
+    if hasOutOfDomain s1 r then throw "out of domain"
+    pure (Json.mkObj [("trace", Json.arr (s1.trace.map eventToJson).toArray),
+      ("sleeps", Json.arr (s1.sleeps.map Val.toJson).toArray),
+      ("outcome", resToJson r), ("ctx", Ctx.toJson s1.ctx),
+      ("stack", Json.arr (s1.stack.map Json.str).toArray)])
+  | _ => .error s!"unknown op {op}"
 
 end Pypyr.OpFlow
